@@ -1,13 +1,5 @@
-import Mathlib.Data.List.Sort
-import Mathlib.Data.List.Perm.Subperm
-#check @List.eq_of_perm_of_sorted
-#check @List.Perm.eq_of_sorted
-#check @List.Perm.eq_of_pairwise
-#check @List.Sorted
-#check @List.subperm_of_subset
-#check @List.Subperm.perm_of_length_le
-#check @List.Nodup.subperm
-#check @List.pairwise_reverse
-#check @List.Sublist.subperm
-#check @List.sublist_insertIdx
-#check @List.Subperm.length_le
+import CotengraVerif.Model.Paths
+open Cotengra Cotengra.Paths
+def exTree : BT := .node (.node (.leaf 3) (.node (.leaf 0) (.leaf 2))) (.node (.leaf 1) (.leaf 4))
+#eval getPath 5 (traverseDfs exTree)
+#eval (getPath 5 (traverseDfs exTree)).bind (fromLinearPath 5)
